@@ -20,7 +20,7 @@ RULE = ('seeded random models x option sets (top namespace of depth 0-3 among ex
 ASSUMPTIONS = ['binding order between entities is not constrained (multiset comparison)',
                'typedef instantiations are declared in the namespace of their template (clean dialect)',
                'instance-variable names of classes with enums do not clash (known finding D44)']
-MIN_EVENTS = {'quick': {'bindings_compared': 3000}, 'thorough': {'bindings_compared': 60000}}
+MIN_EVENTS = {'quick': {'bindings_compared': 3000}, 'thorough': {'bindings_compared': 40000}}
 
 
 def plan(tier, seed):
